@@ -54,4 +54,8 @@ def json_b64encode(text: Any) -> bytes:
 
 
 def json_b64decode(text: Any) -> Any:
-    return json.loads(urlsafe_b64decode(to_bytes(text, "ascii")))
+    try:
+        return json.loads(urlsafe_b64decode(to_bytes(text, "ascii")))
+    except RecursionError:
+        # excessively nested JSON from an untrusted token
+        raise ValueError("Invalid JSON: nested too deeply")
